@@ -14,14 +14,14 @@ def run(d):
         os.makedirs(scr); subprocess.run(['rsync','-a','--exclude=.git','/repo/',scr+'/'],check=True)
         p=subprocess.run(['git','apply','--whitespace=nowarn',os.path.join(d,'patch.diff')],cwd=scr,capture_output=True,text=True)
         if p.returncode!=0: return name,None,'patch does not apply: '+p.stderr[:200]
-        p=subprocess.run(['/verif/bin/hmscheck','-all','-repo',scr,'-verif','/verif'],capture_output=True,text=True,env=ENV)
+        p=subprocess.run([os.environ.get('HMSCHECK','/verif/bin/hmscheck'),'-all','-repo',scr,'-verif','/verif'],capture_output=True,text=True,env=ENV)
         try: res=json.loads(p.stdout)
         except Exception as e: return name,None,'checker output unparsable: '+p.stdout[-300:]+p.stderr[-300:]
         return name,res,None
     finally:
         shutil.rmtree(tmp,ignore_errors=True)
 dirs=[d for d in sorted(glob.glob('/verif/seeded/*')) if os.path.isdir(d) and os.path.exists(os.path.join(d,'patch.diff')) and (not only or os.path.basename(d) in only)]
-base=subprocess.run(['/verif/bin/hmscheck','-all','-repo','/repo','-verif','/verif'],capture_output=True,text=True,env=ENV)
+base=subprocess.run([os.environ.get('HMSCHECK','/verif/bin/hmscheck'),'-all','-repo','/repo','-verif','/verif'],capture_output=True,text=True,env=ENV)
 basej=json.loads(base.stdout)
 basekeys={(p,o['rule'],o['key']) for p,l in basej.items() for o in l}
 if basekeys: print('WARNING: unchanged tree has %d unlisted violations'%len(basekeys))
